@@ -57,6 +57,17 @@ HAMMER2 = {"threads": [[T("(- 2) ++"), T("(1 + - 2) ++"), T("(2 ++) ++")],
            "mode": "hammer", "repeat": 2000}
 
 
+# registrations in different tables overlapping: a thread that has registered an operator (long name, own table) must find it in its
+# own next evaluation whatever other threads register meanwhile in the other tables (anything shared between the tables is updated atomically)
+HAMMER3 = {"threads": [[{"op": "reg", "r": "infix", "name": "divisibleByEleven", "val": "h1", "prec": 115, "assoc": "L"}, {"op": "exec", "r": "infix", "name": "divisibleByEleven", "expect": "h1"}],
+                       [{"op": "reg", "r": "prefix", "name": "upre", "val": "h2"}, {"op": "exec", "r": "prefix", "name": "upre", "expect": "h2"}],
+                       [{"op": "reg", "r": "postfix", "name": "squaredAndHalved", "val": "h3"}, {"op": "exec", "r": "postfix", "name": "squaredAndHalved", "expect": "h3"}],
+                       [{"op": "reg", "r": "func", "name": "f", "val": "h4"}, {"op": "exec", "r": "func", "name": "f", "expect": "h4"}],
+                       [{"op": "reg", "r": "prefix", "name": "negateTwiceOver", "val": "h5"}, {"op": "exec", "r": "prefix", "name": "negateTwiceOver", "expect": "h5"}],
+                       [{"op": "reg", "r": "infix", "name": "uin", "val": "h6", "prec": 115, "assoc": "L"}, {"op": "exec", "r": "infix", "name": "uin", "expect": "h6"}]],
+           "mode": "hammer", "repeat": 3000}
+
+
 def apalache(run):
     """Inductive invariant of the once-cell protocol for 8 threads (Apalache, symbolic): initiation, consecution, and
     IndInv => NoPartialInit.  TLC explores 2-3 threads; this closes the gap for the initialisation protocol."""
@@ -128,7 +139,15 @@ def check(run):
                           {"family": "engine", "scenario": HAMMER2, "summary": summ})
         elif summ.get("panics"):
             run.violation("C13/hammer", "under sustained load %d calls panicked" % summ.get("panics", 0), {"family": "engine", "scenario": HAMMER2, "summary": summ})
-    run.leg("R:hammer", runs=(8 if thorough else 3) + (4 if thorough else 2), threads=6)
+    for k in range(4 if thorough else 2):
+        evs, summ = eng.run_scenario(dict(HAMMER3, repeat=(15000 if thorough else 3000) + k), timeout=120)
+        run.traces += 1
+        if summ.get("deadlock") or summ.get("hung") or "aborted" in summ:
+            run.violation("C13/deadlock", "overlapping registrations in different tables did not finish: %s" % {k2: v for k2, v in summ.items() if k2 != "stderr"}, {"family": "engine", "scenario": HAMMER3, "summary": summ})
+        elif summ.get("panics") or summ.get("impossible_results"):
+            run.violation("C13/hammer", "with registrations overlapping in different tables, %d calls panicked and %d evaluations did not find the operator their own thread had just registered"
+                          % (summ.get("panics", 0), summ.get("impossible_results", 0)), {"family": "engine", "scenario": HAMMER3, "summary": summ})
+    run.leg("R:hammer", runs=(8 if thorough else 3) + 2 * (4 if thorough else 2), threads=6)
     nsync = 0
     for sc in sync_scenarios():
         evs, summ = eng.run_scenario(sc, timeout=60)
